@@ -666,7 +666,7 @@ func (g *Gen) resTypes() []*Type {
 func (g *Gen) stmt() {
 	r := g.R
 	g.budget = 12
-	k := r.IntN(100)
+	k := r.IntN(114)
 	switch {
 	case k < 18:
 		// value declaration
@@ -840,10 +840,206 @@ func (g *Gen) stmt() {
 		}
 	case k < 98:
 		g.resourceOp()
-	default:
+	case k < 101:
 		if g.Tx && g.inLoop == 0 {
 			g.storageOp()
 		}
+	default:
+		g.extraStmt()
+	}
+}
+
+// extraStmt: less common language features (resource casts through AnyResource, resource
+// attachments, nested functions, enum switches, type values, wider numeric types, string and
+// container built-ins, interface-typed values).
+func (g *Gen) extraStmt() {
+	r := g.R
+	sel := r.IntN(29)
+	if sel >= 15 {
+		sel -= 15 // cases 0..13 twice as likely as case 14
+	}
+	switch sel {
+	case 0:
+		// resource cast through AnyResource
+		g.feat("res_cast_anyresource")
+		a, b := g.fresh("q"), g.fresh("q")
+		g.line("let %s: @AnyResource <- make(%d)", a, r.IntN(30))
+		if r.IntN(2) == 0 {
+			g.line("let %s <- %s as! @R0", b, a)
+			g.declare(b, g.W.Resources[0].T, false)
+		} else {
+			tgt := pick(r, []string{"R0", "R1"})
+			g.line("if let %s <- %s as? @%s {", b, a, tgt)
+			g.line("    log(%s.id)", b)
+			g.line("    destroy %s", b)
+			g.line("} else {")
+			g.line("    destroy %s", a)
+			g.line("}")
+		}
+	case 1:
+		// resource attachment
+		g.feat("res_attachment")
+		a, b := g.fresh("q"), g.fresh("q")
+		g.line("let %s <- make(%d)", a, r.IntN(30))
+		g.line("let %s <- attach RA0(w: %d) to <-%s", b, r.IntN(9), a)
+		g.line("log(%s[RA0]?.total())", b)
+		g.declare(b, g.W.Resources[0].T, false)
+		if r.IntN(2) == 0 {
+			g.line("remove RA0 from %s", b)
+			g.line("log(%s[RA0] == nil)", b)
+		}
+	case 2:
+		// nested function
+		g.feat("nested_function")
+		f := g.fresh("nf")
+		g.line("fun %s(_ a: Int, _ b: Int): Int {", f)
+		g.line("    if a > b { return a - b }")
+		g.line("    return %s", pick(r, []string{"a + b", "rec(2) + a", "b * 2"}))
+		g.line("}")
+		g.line("log(%s(%s, %s))", f, g.typed(TInt, 1), g.typed(TInt, 1))
+	case 3:
+		// enum switch and raw values
+		g.feat("enum_switch")
+		e := g.fresh("e")
+		g.line("let %s = %s", e, g.lit(g.W.EnumType, 1))
+		g.line("switch %s {", e)
+		g.line("case Color.red: log(\"r\")")
+		g.line("case Color.green: log(%s.rawValue)", e)
+		g.line("default: log(Color(rawValue: %d)?.rawValue)", r.IntN(5))
+		g.line("}")
+	case 4:
+		// type values
+		g.feat("type_values")
+		t := pick(r, []string{"Int", "String", "[Int]", "{String: Int}", "S0", "@R0", "&S0", "auth(E0) &S0", "{SI0}", "Int?", "Color"})
+		u := pick(r, []string{"AnyStruct", "Int", "@AnyResource", "{SI0}", "&S0", "S0", "Integer", "Number"})
+		g.line("log(Type<%s>().isSubtype(of: Type<%s>()))", t, u)
+		g.line("log(Type<%s>().identifier)", t)
+		if r.IntN(2) == 0 {
+			g.line("log(OptionalType(Type<%s>()) == Type<%s?>())", pick(r, []string{"Int", "String", "S0"}), pick(r, []string{"Int", "String", "S0"}))
+		}
+	case 5:
+		// wide numeric types
+		g.feat("wide_numeric")
+		t := pick(r, []string{"Int128", "UInt256", "Int256", "UInt128", "Word64", "Word128", "UInt64", "Int32", "UInt16"})
+		a, b := 1+r.IntN(1000), 1+r.IntN(1000)
+		op := pick(r, []string{"+", "*", "/", "%", "&", "|", "^"})
+		g.line("log((%d as %s) %s (%d as %s))", a, t, op, b, t)
+		if r.IntN(2) == 0 {
+			g.line("log(((%d as %s) << %d) >> %d)", a, t, r.IntN(9), r.IntN(9))
+		}
+		if r.IntN(3) == 0 {
+			g.line("log(%s.fromString(\"%d\"))", t, a)
+			g.line("log((%d as %s).toBigEndianBytes())", a, t)
+		}
+	case 6:
+		// fixed point
+		g.feat("fixed_point")
+		t := pick(r, []string{"UFix64", "Fix64", "UFix128", "Fix128"})
+		op := pick(r, []string{"+", "*", "/"})
+		g.line("log((%d.%d as %s) %s (%d.%d as %s))", r.IntN(90), r.IntN(100), t, op, 1+r.IntN(9), r.IntN(100), t)
+	case 7:
+		// string built-ins
+		g.feat("string_builtins")
+		s := g.fresh("s")
+		g.line("let %s: String = %s", s, g.typed(TString, 1))
+		switch r.IntN(6) {
+		case 0:
+			g.line("log(%s.utf8)", s)
+		case 1:
+			g.line("log(%s.contains(\"a\"))", s)
+			g.line("log(%s.index(of: \"b\"))", s)
+		case 2:
+			g.line("log(%s.replaceAll(of: \"a\", with: \"zz\"))", s)
+		case 3:
+			g.line("log(%s.count(\"a\"))", s)
+		case 4:
+			g.line("if %s.length > 1 { log(%s.slice(from: 1, upTo: %s.length)) }", s, s, s)
+			g.line("if %s.length > 0 { log(%s[0]) }", s, s)
+		default:
+			g.line("log(String.encodeHex(%s.utf8))", s)
+			g.line("log(String.fromUTF8(%s.utf8))", s)
+		}
+	case 8:
+		// container built-ins
+		g.feat("container_builtins")
+		a := g.fresh("xs")
+		g.line("var %s: [Int] = %s", a, g.lit(Arr(TInt), 1))
+		g.declare(a, Arr(TInt), true)
+		switch r.IntN(6) {
+		case 0:
+			g.line("log(%s.reverse())", a)
+		case 1:
+			g.line("log(%s.firstIndex(of: %d))", a, r.IntN(9))
+		case 2:
+			g.line("if %s.length > 0 { log(%s.removeFirst()) }", a, a)
+		case 3:
+			g.line("log(%s.toConstantSized<[Int; 2]>())", a)
+		case 4:
+			g.line("log(%s.concat([1, 2]).slice(from: 0, upTo: 1))", a)
+		default:
+			g.line("log(%s.map(fun (x: Int): String { return x.toString() }))", a)
+		}
+	case 9:
+		// dictionary built-ins
+		g.feat("dict_builtins")
+		d := g.fresh("dd")
+		g.line("var %s: {String: Int} = %s", d, g.lit(Dict(TString, TInt), 1))
+		g.declare(d, Dict(TString, TInt), true)
+		g.line("%s.forEachKey(fun (k: String): Bool {", d)
+		g.line("    log(k)")
+		g.line("    return %s", pick(r, []string{"true", "false", "k.length > 1"}))
+		g.line("})")
+		g.line("log(%s.keys.length == %s.values.length)", d, d)
+	case 10:
+		// interface-typed values
+		g.feat("interface_typed_value")
+		i := g.fresh("iv")
+		g.line("let %s: {SI0} = %s", i, g.lit(g.W.Structs[0].T, 1))
+		g.line("log(%s.sig0(%s) + %s.dflt())", i, g.typed(TInt, 2), i)
+		if r.IntN(2) == 0 {
+			g.line("log((%s as? S0)?.a)", i)
+		}
+	case 11:
+		// resource created in a loop
+		if g.depth > 2 {
+			return
+		}
+		g.feat("res_in_loop")
+		i, q := g.fresh("i"), g.fresh("q")
+		g.line("var %s = 0", i)
+		g.line("while %s < %d {", i, 1+r.IntN(3))
+		g.line("    %s = %s + 1", i, i)
+		g.line("    let %s <- make(%s)", q, i)
+		g.line("    log(%s.inc())", q)
+		g.line("    destroy %s", q)
+		g.line("}")
+	case 14:
+		// swap with an element of a resource-typed field container
+		g.feat("res_swap_field_element")
+		q, t := g.fresh("q"), g.fresh("q")
+		g.line("let %s <- make1(%d)", q, r.IntN(30))
+		g.line("var %s <- make(%d)", t, r.IntN(30))
+		g.line("%s.kids[0] <-> %s", q, t)
+		g.line("log(%s.n)", t)
+		g.declare(q, g.W.Resources[1].T, false)
+		g.declare(t, g.W.Resources[0].T, true)
+	case 12:
+		// references to optionals and nested access on resources
+		g.feat("res_optional_ref")
+		q := g.fresh("q")
+		g.line("let %s <- make1(%d)", q, r.IntN(30))
+		g.line("%s.setChild(<- make(%d))", q, r.IntN(30))
+		g.line("let cr%d = &%s.child as &R0?", g.next, q)
+		g.line("log(cr%d?.n)", g.next)
+		g.line("log(%s.kids[0].peek())", q)
+		g.declare(q, g.W.Resources[1].T, false)
+	case 13:
+		// view function call and conditions via interface default
+		g.feat("res_iface_default")
+		q := g.fresh("q")
+		g.line("let %s <- make(%d)", q, r.IntN(30))
+		g.line("log(%s.rdflt(%d) + %s.rsig())", q, r.IntN(50), q)
+		g.declare(q, g.W.Resources[0].T, false)
 	}
 }
 
@@ -1158,7 +1354,7 @@ type Program struct {
 	Tx       bool
 }
 
-var qualRe = regexp.MustCompile(`\b(S[0-9]|R[0-9]|SI0|RI0|Color|E[0-9]|Ev[0-9]|A0|rec|eat|make1|make|viaRef|viaAuth|viaIface|viaRIface|clampIdx|adder|fire)\b`)
+var qualRe = regexp.MustCompile(`\b(S[0-9]|R[0-9]|SI0|RI0|Color|E[0-9]|Ev[0-9]|A0|RA0|rec|eat|make1|make|viaRef|viaAuth|viaIface|viaRIface|clampIdx|adder|fire)\b`)
 
 // qualify prefixes world names with the contract name in transaction bodies.
 func qualify(body string) string {
